@@ -159,6 +159,7 @@ static void checkC13(Ctx& c, long idx, Rng& r) {
     // from the net per-body output which may cancel to exactly zero (same body twice)
     double aF = 0, aM = 0; e.actionScale(k, s, haveRef ? &ref : nullptr, aF, aM);
     sF = std::max(sF, aF); sM = std::max(sM, aM);
+    if (haveRef) { sF = std::max(sF, ref.scale); sM = std::max(sM, ref.scale); }   // incl. the floors from magnitudes before cancellation
     LazyWit wit{&k};
     auto W = [&](const char* what, const Vec3& v) { return [&, what, v]() { return wit.get().set("what", what).set("net", jV3(v)).set("bodyForces", jFs(o.F)); }; };
     c.require("finite:" + e.name, std::isfinite(sF) && std::isfinite(sM), W("non-finite body force", netF));
@@ -198,6 +199,7 @@ static PowerOut powerAt(Ctx& c, FCase& k, State& s) {
     double aF = 0, aM = 0; Ref ref; bool haveRef = e.hasReference; if (haveRef) k.reference(s, ref);
     e.actionScale(k, s, haveRef ? &ref : nullptr, aF, aM);
     po.scale += (aF + aM) * vmax;
+    if (haveRef) po.scale += ref.scale * vmax;   // incl. the floors from magnitudes before cancellation (same body twice)
     po.reported = e.reportedDissipation(k, s);
     if (!std::isfinite(po.P)) { po.ok = false; po.why = "nonfinite-power"; return po; }
     if (!e.reportsPE) return po;
